@@ -754,7 +754,7 @@ def srt (t : Table (XR K)) : List (XR K × Nat) := isort (ops E) (keyed (ops E) 
 
 theorem main_some {t : Table (XR K)} {P : Nat} (hP : 1 ≤ P) {out : List (FinalRow (XR K))}
     (h : main (ops E) t P = some out) :
-    2 ≤ t.rows.length ∧ 2 ≤ t.nUniq ∧ out = finalOf (ops E) t.npar (mins E t) := by
+    1 ≤ t.rows.length ∧ 1 ≤ t.nUniq ∧ out = finalOf (ops E) t.npar (mins E t) := by
   unfold main at h
   split at h
   · cases h
